@@ -49,10 +49,16 @@ def build_lib(pid, variant):
     """Build libcimba.a (variant rel|san|off) from REPO's working tree into
     build/<pid>/<variant>.  Returns the directory."""
     out = os.path.join(ROOT, "build", pid, variant)
+    if (pid, variant) in _BUILT:          # once per check run: the tree does not change under a running check
+        return out
     rc, o = run([os.path.join(ROOT, "tools", "build.sh"), variant, REPO], env={"VERIF_BUILD_OUT": out}, timeout=600)
     if rc != 0:
         raise MachineryError("library build failed (variant %s):\n%s" % (variant, o[-6000:]))
+    _BUILT.add((pid, variant))
     return out
+
+
+_BUILT = set()
 
 
 def cc_harness(pid, variant, name, extra_src=(), extra_flags=()):
